@@ -271,7 +271,9 @@ Definition accept_event (s : bstate) (prev : option uobs) (ev : event) : option 
            | None => negb (ob_unresp ob)
            end, if later then DFixedOnce else DUnresponsive);
           ((uo_newsub o =? uo_newsub mo) && (uo_updaddr o =? uo_updaddr mo) &&
-           (ob_pool ob =? match s' with Some e => min_size (pool_of e) | None => 0 end), DSubconns)],
+           (ob_pool ob =? match s' with Some e => min_size (pool_of e) | None => 0 end), DSubconns);
+          (* the model state did not change, so neither may anything the harness reads back *)
+          (if later then match prev with Some p => uobs_eqb ob p | None => false end else true, DFixedOnce)],
        s')
   end.
 
